@@ -614,16 +614,21 @@ def target (st : OState) (c : Claim) : Prophecy := (getProphecy st.prophecies c.
 def claimed (ord : List Group → List Group) (vals : List Validator) (st : OState) (c : Claim) : Prophecy :=
   processCompletion ord vals st.whitelist (addClaim (target st c) c.validator c.content)
 
+theorem ensureInWhiteList_spec {wl : List Nat} {c : Claim} (h : ensureInWhiteList wl c = true) :
+    c.spelling = 0 ∧ inWhiteList wl c.validator = true := by
+  unfold ensureInWhiteList at h
+  simpa using h
+
 /-- what a successful `ProcessClaim` did -/
 theorem processClaim_ok {ord : List Group → List Group} {vals : List Validator} {st : OState} {c : Claim}
     {st' : OState} {s : StatusText} {f : Content} (h : processClaim ord vals st c = .ok (st', s, f)) :
-    inWhiteList st.whitelist c.validator = true ∧ checkActive vals c.validator = true ∧ c.content ≠ .empty ∧
+    ensureInWhiteList st.whitelist c = true ∧ checkActive vals c.validator = true ∧ c.content ≠ .empty ∧
     (target st c).status = .pending ∧ hasClaim (target st c) c.validator = false ∧
     st' = { st with prophecies := setProphecy st.prophecies (claimed ord vals st c) } ∧
     s = (claimed ord vals st c).status ∧ f = (claimed ord vals st c).final := by
   unfold claimed target
   unfold processClaim at h
-  by_cases h1 : inWhiteList st.whitelist c.validator = true
+  by_cases h1 : ensureInWhiteList st.whitelist c = true
   · by_cases h2 : checkActive vals c.validator = true
     · by_cases h3 : (c.id == "") = true
       · simp [h1, h2, h3] at h
@@ -631,13 +636,17 @@ theorem processClaim_ok {ord : List Group → List Group} {vals : List Validator
         · simp [h1, h2, h3, h4] at h
         · by_cases h5 : (((getProphecy st.prophecies c.id).getD (newProphecy c.id)).status != StatusText.pending) = true
           · simp [h1, h2, h3, h4, h5] at h
-          · by_cases h6 : hasClaim ((getProphecy st.prophecies c.id).getD (newProphecy c.id)) c.validator = true
+          · by_cases h6 : hasClaimKey ((getProphecy st.prophecies c.id).getD (newProphecy c.id)) c = true
             · simp [h1, h2, h3, h4, h5, h6] at h
             · simp only [h1, h2, h3, h4, h5, h6, Bool.not_true, Bool.false_eq_true, if_false] at h
               injection h with h
               injection h with e1 e2
               injection e2 with e2 e3
-              refine ⟨h1, h2, by simpa using h4, by simpa using h5, by simpa using h6, e1.symm, e2.symm, e3.symm⟩
+              have hsp := (ensureInWhiteList_spec h1).1
+              have h6' : hasClaim ((getProphecy st.prophecies c.id).getD (newProphecy c.id)) c.validator = false := by
+                unfold hasClaimKey at h6
+                simpa [hsp] using h6
+              refine ⟨h1, h2, by simpa using h4, by simpa using h5, h6', e1.symm, e2.symm, e3.symm⟩
     · simp [h1, h2] at h
   · simp [h1] at h
 
